@@ -127,6 +127,18 @@ class SimSocket(object):
     def setsockopt(self, *args):
         if self._closed:
             raise OSError(errno.EBADF, "Bad file descriptor")
+        if self.family == _real.AF_UNIX and args and args[0] == _real.IPPROTO_TCP:
+            # e.g. TCP_NODELAY on a Unix socket
+            raise OSError(errno.EOPNOTSUPP, "Operation not supported")
+        if len(args) >= 3 and args[0] == _real.SOL_SOCKET and args[1] == _real.SO_LINGER:
+            import struct
+
+            try:
+                onoff, linger = struct.unpack("ii", bytes(args[2])[:8])
+            except (struct.error, TypeError):
+                onoff, linger = 0, 0
+            # SO_LINGER on with a zero time-out: close() resets the connection and drops what was not delivered yet
+            self._linger0 = bool(onoff) and linger == 0
 
     def getsockopt(self, *args):
         return 0
@@ -423,6 +435,13 @@ class SimSocket(object):
             if s is not None and not s.aborting:
                 s.emit("net.close", ep.conn.cid, "client" if ep.is_client else "server")
                 peer = ep.peer
+                if getattr(self, "_linger0", False):
+                    # abortive close: data still in flight is lost, the peer gets a reset
+                    kept = [seg for seg in peer.segments if seg[0] <= s.now]
+                    if len(kept) != len(peer.segments):
+                        s.fault("abortive_close_dropped_data_in_flight")
+                    peer.segments[:] = kept
+                    peer.reset = True
                 if ep.segments:
                     # unread data at close: the peer gets a reset
                     peer.reset = True
